@@ -84,6 +84,7 @@ WIT_EXPECT: dict = {}
 # case -> number of explored models with a call in that case
 DP_MODELS: dict = {}
 FX: dict = {'shared': False, 'repSeq': False, 'head10': False, 'edc10': False, 'edcLoop': False}
+REPAIRED = ('shared', 'repSeq', 'head10', 'edc10', 'edcLoop')   # all in /repo since c5f567b (variant patched+edcLoop)
 FX_WITNESS = {
     # flag: (XSD 1.1?, model, build outcome (True = accepted) that shows the repair is in the tree)
     'shared': (False, ('g', 'sequence', 1, 1, [('g', 'sequence', 1, 1, [('e', 'a', 0, 1)], 'ref'),
@@ -478,6 +479,17 @@ def run(ctx: Ctx, driver_ok: bool) -> None:
     detect_fixes()
     ctx.notes.append('algorithm variant of the tree under test: %s %s' % (variant(), json.dumps(FX)))
     ctx.count('variant:' + variant())
+    # every repair below is a `fix:` commit of /repo (known_findings.json: C15-F1..F4 and the combined patch): a tree
+    # on which the witness of a repair behaves as before the repair has the fixed defect back.  The port then follows
+    # the tree (FX), so the family runs would agree with it: the witness itself is the failing input.
+    for k in REPAIRED:
+        if not FX[k]:
+            v11, ast, accepted_when_fixed = FX_WITNESS[k]
+            ctx.count('repair-witness-regressed:' + k)
+            ctx.failure('a repaired defect is back: the build outcome of the witness of repair `%s` is the one of the '
+                        'unrepaired algorithm' % k,
+                        {'v': '1.1' if v11 else '1.0', 'ast': ast, 'repair': k},
+                        {'expected_accepted': accepted_when_fixed, 'observed_accepted': not accepted_when_fixed})
     if drv is None:
         ctx.notes.append('Lean driver unavailable: property judged by the reference automaton on the seed-independent '
                          'families only')
